@@ -36,6 +36,10 @@ M = [
   "        if self.send_control_packet(cx, &fin)? {\n            self.timers.retransmit.arm(\n                self.this_poll.now,\n                self.rtte.retransmission_timeout(),\n                false,\n                \"rfc6298 5.1\",\n            );\n", "        if self.send_control_packet(cx, &fin)? {\n", "a lost FIN is never retransmitted"),
  ("c02-early-pending", "C02", "C02.6", "stage-skippable|maybe_send_ack", "src/stream_dispatch.rs",
   "            // Send an ACK if nothing sent yet and sending an ACK is necessary.\n            pending_if_cannot_send!(self.maybe_send_ack(cx).map(|_| ()));", "            // Send an ACK if nothing sent yet and sending an ACK is necessary.\n            if !self.state.is_local_fin_or_later() {\n                pending_if_cannot_send!(self.maybe_send_ack(cx).map(|_| ()));\n            }", "ACK stage skipped after local FIN"),
+ ("c02-idle-return-unregistered", "C02", "C02.9", "idle-return-without-registering", "src/stream_dispatch.rs",
+  "            if tx_len == 0 {\n                update_optional_waker(&mut g.dispatcher_waker, cx);\n                return Ok(());\n            }", "            if tx_len == 0 {\n                return Ok(());\n            }", "a write on an idle connection wakes nobody"),
+ ("c02-lock-order-cycle", "C02", "C02.7", "lock-order-cycle", "src/stream_tx.rs",
+  "        let skipped = self.consumer.lock().skip(count);", "        let skipped = {\n            let mut c = self.consumer.lock();\n            let closed = self.locked.read().vsock_closed;\n            if closed { 0 } else { c.skip(count) }\n        };", "consumer -> locked while the dispatcher holds locked -> consumer (and re-acquires locked through the call)"),
  # ---------------------------------------------------------------- C03
  ("c03-shutdown-ok-with-unacked", "C03", "C03.1", "poll_shutdown|Ready(Ok)|not-guarded-by(UserTx.producer.is_empty)", "src/stream_tx.rs",
   "            if g.vsock_closed {\n                return Poll::Ready(Err(std::io::Error::other(\"socket died\")));\n            }\n\n            update_optional_waker(&mut g.writer_waker, cx);\n            return Poll::Pending;", "            if g.vsock_closed {\n                return Poll::Ready(Ok(()));\n            }\n\n            update_optional_waker(&mut g.writer_waker, cx);\n            return Poll::Pending;", "shutdown reports success with unacknowledged bytes when the socket died"),
